@@ -65,7 +65,7 @@ fn run_check(id: &str, tier: Tier, seed: u64) -> i32 {
                 ),
                 "C02" => (
                     budget(tier, 20_000, 3_000_000),
-                    "non-trivial = history with a match that produced >= 2 transactions (sweep over several makers or several replenishment rounds); per-call accounting + per-order lifetime ledger (supplied, adjusted by amendments, vs. sum of fills) kept across the whole history",
+                    "non-trivial = history with a match that produced >= 2 transactions (sweep over several makers or several replenishment rounds); per-call accounting + per-order lifetime ledger (supplied, adjusted by amendments, vs. sum of fills) kept across the whole history; plus seeded sequences of 0-7 transactions (quantities 0, exact remainder, over-fill, 64-bit edge values) appended to a fresh MatchResult: remaining = initial - sum (saturating), completion flag, list order, executed_quantity",
                 ),
                 "C04" => (
                     budget(tier, 25_000, 3_000_000),
@@ -94,6 +94,9 @@ fn run_check(id: &str, tier: Tier, seed: u64) -> i32 {
             };
             run_seq(&chk, &mut rep, n);
             let seq_rule = format!("{}{}", RULE_HSEQ, rule);
+            if id == "C02" {
+                checks_seq::match_result_incremental(&mut rep, budget(tier, 50_000, 5_000_000));
+            }
             if id == "C15" {
                 // concurrent half: statistics at quiescence of scheduled / free-running executions
                 let seq_eval = rep.evaluations;
@@ -168,16 +171,50 @@ fn supervise(args: &[String], id: &str, tier: Tier, seed: u64) -> i32 {
         Ok(e) => e,
         Err(_) => return run_check(id, tier, seed),
     };
+    // generous wall-clock cap: its firing is a verdict of "inconclusive" (a call blocked on a
+    // lock executes no step, so no logical budget can see it), never a violation
+    let cap = std::time::Duration::from_secs(
+        std::env::var("PLV_WALL_CAP_S").ok().and_then(|s| s.parse().ok()).unwrap_or(tier.pick(1_800, 6 * 3_600)),
+    );
+    let timed_out = std::cell::Cell::new(false);
     let run = |careful: Option<&str>| -> Option<std::process::ExitStatus> {
         let mut c = Command::new(&exe);
         c.args(&args[1..]).env("PLV_INNER", "1");
         if let Some(p) = careful {
             c.env("PLV_CAREFUL", p);
         }
-        c.status().ok()
+        let mut child = c.spawn().ok()?;
+        let t0 = std::time::Instant::now();
+        loop {
+            match child.try_wait() {
+                Ok(Some(st)) => return Some(st),
+                Ok(None) => {
+                    if t0.elapsed() > cap {
+                        let _ = child.kill();
+                        let _ = child.wait();
+                        timed_out.set(true);
+                        return None;
+                    }
+                    std::thread::sleep(std::time::Duration::from_millis(100));
+                }
+                Err(_) => return None,
+            }
+        }
     };
     let st = match run(None) {
         Some(s) => s,
+        None if timed_out.get() => {
+            let mut rep = Report::new(prop_static(id), tier, seed, "other");
+            rep.set(
+                "explanation",
+                serde_json::json!(format!("the check did not finish within its wall-clock cap of {} s and was stopped; nothing is concluded (a call that blocks on a lock executes no hooked step, so the logical step budgets cannot see it)", cap.as_secs())),
+            );
+            rep.evaluations = 1;
+            rep.rule = "wall-clock cap: see explanation".into();
+            rep.min_nontrivial = u64::MAX; // never "held"
+            rep.inconclusive(format!("wall-clock cap of {} s exceeded", cap.as_secs()));
+            return rep.finish();
+        }
         None => return run_check(id, tier, seed),
     };
     if let Some(c) = st.code() {
@@ -215,17 +252,7 @@ fn supervise(args: &[String], id: &str, tier: Tier, seed: u64) -> i32 {
         }
     }
     crumbs.sort();
-    let mut rep = Report::new(
-        match id {
-            "C09" => "C09",
-            "C16" => "C16",
-            "C17" => "C17",
-            _ => "C18",
-        },
-        tier,
-        seed,
-        "other",
-    );
+    let mut rep = Report::new(prop_static(id), tier, seed, "other");
     rep.set("explanation", serde_json::json!("the check's worker process was killed by an abort inside the library (allocation failure / stack overflow escape catch_unwind); the supervisor repeated the run with per-input breadcrumbs to name the input"));
     rep.evaluations = 1;
     rep.distinct.insert(1);
@@ -269,6 +296,13 @@ fn supervise(args: &[String], id: &str, tier: Tier, seed: u64) -> i32 {
         let _ = std::fs::remove_file(p);
     }
     rep.finish()
+}
+
+fn prop_static(id: &str) -> &'static str {
+    const IDS: [&str; 19] = [
+        "C01", "C02", "C03", "C04", "C05", "C06", "C07", "C08", "C09", "C10", "C11", "C12", "C13", "C14", "C15", "C16", "C17", "C18", "C19",
+    ];
+    IDS.iter().find(|x| **x == id).copied().unwrap_or("C00")
 }
 
 /// true iff parsing `input` with `entry` alone kills a subprocess
@@ -356,6 +390,10 @@ fn main() {
                 0
             }
         }
+        "mini-codec" => checks_codec::mini_codec(
+            args.get(2).and_then(|s| s.parse().ok()).unwrap_or(1),
+            args.get(3).and_then(|s| s.parse().ok()).unwrap_or(2),
+        ),
         "parse-one" => checks_codec::parse_one(args.get(2).map(|s| s.as_str()).unwrap_or("")),
         _ => {
             eprintln!("usage: plv check <ID> [--tier quick|thorough] [--seed N] | plv replay <path>");
